@@ -178,6 +178,6 @@ mod tests {
 
 // Verification harnesses (Kani); the sources live outside this repository.
 #[cfg(feature = "verif")]
-mod verif {
+pub(crate) mod verif {
     include!(concat!(env!("VHOST_VERIF_DIR"), "/harness/vk_net.rs"));
 }
